@@ -111,6 +111,17 @@ def build(case):
         # a KS-named source whose spike times are given the ALF way: seconds from a synchronised clock (offset and drift,
         # not samples / rate) in spikes.times.npy plus spikes.samples.npy; the export keeps those seconds
         spec.notes['hybrid_times'] = spec.spike_samples.astype(np.float64) / spec.sample_rate * 1.00002 + 0.125
+    if spec.notes.get('hybrid_times') is None and case['seed'][2] % 9 == 5 and not case.get('large') and not case.get('batch') and spec.sample_rate >= 100.:
+        # a source that gives its spikes in seconds only (spikes.times.npy = sample / rate, no sample file at all): the samples
+        # are recovered by rounding; some spikes sit on sample numbers k for which (k / rate) * rate falls just below k
+        rate_ = spec.sample_rate
+        hi_ = int(spec.spike_samples.max())
+        cands = [k_ for k_ in range(1, max(2, min(hi_, 5000))) if (k_ / rate_) * rate_ < k_][:6]
+        ss_ = spec.spike_samples.astype(np.int64).copy()
+        if cands and len(ss_) > len(cands) + 2:
+            ss_[:len(cands)] = cands
+            spec.spike_samples = np.sort(ss_).astype(spec.spike_samples.dtype)
+        spec.notes['seconds_only'] = True
     if spec.probes is not None:
         # 2-probe table following the merge convention: raw indices of probe 1 = local map + max(map of probe 0)
         nc = spec.n_channels
@@ -206,6 +217,12 @@ def _run(case, ctx, d, which):
             os.remove(os.path.join(src, 'spike_times.npy'))
             np.save(os.path.join(src, 'spikes.times.npy'), spec.notes['hybrid_times'])
             np.save(os.path.join(src, 'spikes.samples.npy'), spec.spike_samples)
+        if spec.notes.get('seconds_only'):
+            os.remove(os.path.join(src, 'spike_times.npy'))
+            np.save(os.path.join(src, 'spikes.times.npy'), spec.spike_samples.astype(np.float64) / spec.sample_rate)
+        if case['seed'][2] % 7 == 3 and os.path.exists(os.path.join(src, 'channel_map.npy')):
+            # the channel map is stored under its ALF name in the source
+            os.rename(os.path.join(src, 'channel_map.npy'), os.path.join(src, 'channels.rawInd.npy'))
         if spec.notes.get('cluster_probes'):
             np.save(os.path.join(src, 'cluster_probes.npy'), np.zeros(
                 int(spec.clusters.max()) + 1 if spec.curated else spec.n_templates, dtype=np.int32))
